@@ -76,6 +76,7 @@ func (ds *dataStore) AppendRecord(rec *Record) (pos Position, err error) {
 		ds.newHead++
 		logger.Infof("rotate to %d, size %d, new rec size %d", ds.newHead, currOffset, size)
 		currOffset = 0
+		verifPoint("data.rotate")
 		go ds.flush(ds.newHead-1, true)
 	}
 	pos.ChunkID = ds.newHead
